@@ -162,3 +162,9 @@ mod tests {
         assert_eq!(do_offset_history(3, 0, &mut scratch), 0);
     }
 }
+
+/// Verification hook: pass-through to the private repeat-offset rule.
+#[cfg(killingspark_zstd_rs_verif)]
+pub fn verif_do_offset_history(offset_value: u32, lit_len: u32, scratch: &mut [u32; 3]) -> u32 {
+    do_offset_history(offset_value, lit_len, scratch)
+}
